@@ -9,11 +9,17 @@ open Ft
 structure DState where
   hist : HistDrv.St := {}
   sess : St := {}
+  prim : St := {}                      -- state of the primitive-level protocol (`SP`)
+  lastPrim : Option PrimRec := none    -- record of the last applied primitive (for `inv`)
 
 def stepLine (d : DState) (line : String) : DState × String :=
   match tokens line with
   | "H" :: rest => let (h, out) := HistDrv.step d.hist rest; ({ d with hist := h }, out)
   | "S" :: rest => let (h, out) := SessDrv.step d.sess rest; ({ d with sess := h }, out)
+  | "SP" :: rest =>
+    let (s', l', out) := PrimDrv.step d.prim d.lastPrim rest
+    ({ d with prim := s', lastPrim := l' }, out)
+  | "IOU" :: rest => (d, IouDrv.handle rest)
   | "NM" :: rest => (d, NameMap.handle rest)
   | "CG" :: rest => (d, CandGraph.handle rest)
   | "LB" :: rest => (d, Labels.handle rest)
